@@ -18,7 +18,7 @@ RESET = [-6]
 FATAL = [-5, -7, -8]
 
 
-def build_harness(ctx_scratch: Path, backend: str, thermal: bool = False, asan: bool = False):
+def build_harness(ctx_scratch: Path, backend: str, thermal: bool = False, asan: bool = False, pyentry: bool = False):
     from ..harness.render import render, reset_globals, quiet
     from ..harness.cxx import GXX, SHIM, run
 
@@ -52,9 +52,12 @@ def build_harness(ctx_scratch: Path, backend: str, thermal: bool = False, asan: 
                 (d / "src" / f"{name}_cu.cpp").write_text("#include <algorithm>\nusing std::min; using std::max;\n" + cu.read_text())
                 srcs.append(f"src/{name}_cu.cpp")
         extra = ["-D__host__=", "-D__device__=", "-D__constant__=const", "-D__global__="]
+    if pyentry:
+        # built as the python module is built; the driver calls PyWrapSolve (pybind11 stand-in) instead of Solve
+        extra = list(extra) + ["-DPYMODULE", "-DPYMODNAME=pymod", "-DVERIF_PYENTRY"]
     if asan:
         extra = list(extra) + ["-fsanitize=address,undefined", "-fno-sanitize-recover=all", "-g", "-O1"]
-    cmd = [GXX, "-std=c++17", "-O2", "-w", *extra, "-include", str(VERIF / "cxx" / "verif_io.h"), "-I", str(SHIM), "-I", "include", *srcs, str(drv), "-o", "drv", "-lm"]
+    cmd = [GXX, "-std=c++17", "-O2", "-w", *extra, "-include", str(VERIF / "cxx" / "verif_io.h"), "-I", str(SHIM), "-I", "include", *srcs, str(drv), str(VERIF / "cxx" / "verif_wrap_fopen.cpp"), "-Wl,--wrap=fopen", "-o", "drv", "-lm"]
     rc, so, se = run(cmd, cwd=str(d), timeout=600)
     if rc != 0:
         first = "\n".join(ln for ln in se.splitlines() if "error" in ln)[:1500]
@@ -131,8 +134,8 @@ def run(ctx):
     samples = []
     compiled = []
     cap = 40_000_000 if ctx.tier == "quick" else 2_000_000_000
-    for backend in ("dense", "sparse", "dense+thermal"):
-        d, drv, err = build_harness(ctx.scratch, backend.split("+")[0], thermal=backend.endswith("+thermal"))
+    for backend in ("dense", "sparse", "dense+thermal", "dense+py"):
+        d, drv, err = build_harness(ctx.scratch, backend.split("+")[0], thermal=backend.endswith("+thermal"), pyentry=backend.endswith("+py"))
         if drv is None:
             raise HarnessError(f"C19 harness does not compile for {backend}: {err}")
         compiled.append(backend)
@@ -151,7 +154,7 @@ def run(ctx):
             results = list(ctx.pmap(run_drv, work))
             crashes = [argv for argv, res in results if "crash" in res]
             if crashes:
-                d2, drv2, err2 = build_harness(ctx.scratch, backend.split("+")[0], thermal=backend.endswith("+thermal"), asan=True)
+                d2, drv2, err2 = build_harness(ctx.scratch, backend.split("+")[0], thermal=backend.endswith("+thermal"), asan=True, pyentry=backend.endswith("+py"))
                 if drv2 is None:
                     raise HarnessError(f"sanitizer build failed: {err2}")
                 try:
@@ -203,6 +206,7 @@ def run(ctx):
         "SUCCESS => |y - y0 - dt| <= 1e-9*dt (the ladder recomputes dt as pow(10, log10(dt))) and the last answer was a success; FAIL <=> last answer a failure/failed re-init, with the 'y[0] =' line of the initial state in the error record; no CVode call after an unrecoverable flag; tout strictly increasing inside a level",
         "flags: recoverable -1..-4, reset -6, every other negative flag unrecoverable; failure positions are restricted per pass (mode 1: steps {1,2,middle,last-1,last} of every level; mode 2: every step of one level, step 1 elsewhere; mode 3: step 1 of every level with the full flag alphabet); each pass is exhaustive for its alphabet unless 'capped' is reported",
         "the error record's fopen is routed to an in-memory stream by a forced include (harness build flag); the generated text is not edited",
+        "python entry point (harness dense+py): the library is built with -DPYMODULE against a functional pybind11 stand-in and the driver calls PyWrapSolve; an exception counts as FAIL, a returned array as SUCCESS with that array as the final state - the same oracle over the same choice sequences",
         "cuSPARSE Solve: the CUDA runtime / cuSPARSE / cuSOLVER names are emulated on the host (device memory = heap), Fex/Jac/InitJac kernels are link-time stubs; only the Solve control flow is exercised",
     ]
     capped = [k for k, v in per_pass.items() if v["capped"]]
@@ -240,7 +244,7 @@ def replay(ctx, case):
         run_odeint(ctx)
         return
     if case.get("crash"):
-        d, drv, err = build_harness(ctx.scratch, case["backend"].split("+")[0], thermal=case["backend"].endswith("+thermal"), asan=True)
+        d, drv, err = build_harness(ctx.scratch, case["backend"].split("+")[0], thermal=case["backend"].endswith("+thermal"), asan=True, pyentry=case["backend"].endswith("+py"))
         if drv is None:
             raise HarnessError(err)
         try:
@@ -250,7 +254,7 @@ def replay(ctx, case):
         if "crash" in r0:
             ctx.violation(f"C19:{case['backend']}:{'heap-or-stack-overflow' if 'overflow' in r0.get('detail', '') else 'memory-error'}", f"replay: {r0.get('detail')}", case)
         return
-    d, drv, err = build_harness(ctx.scratch, case["backend"].split("+")[0], thermal=case["backend"].endswith("+thermal"))
+    d, drv, err = build_harness(ctx.scratch, case["backend"].split("+")[0], thermal=case["backend"].endswith("+thermal"), pyentry=case["backend"].endswith("+py"))
     if drv is None:
         raise HarnessError(err)
     try:
